@@ -4,6 +4,7 @@ IN: {"a": tree, "rests": [tree, ...], "cfgs": [...]}
 """
 import json, os, sys, multiprocessing as mp
 
+from harness.drivers import pmap
 import optree
 from harness import vuniv as U
 from harness.drivers.d_tree import proj_path, proj_acc
@@ -127,8 +128,8 @@ def work(line):
 def main():
     inp, outp = sys.argv[1], sys.argv[2]
     lines = list(open(inp))
-    with mp.Pool(int(os.environ.get('VERIF_PROCS', '16')), initializer=U.setup_world) as pool, open(outp, 'w') as fh:
-        for res in pool.imap(work, lines, chunksize=16):
+    with open(outp, 'w') as fh:
+        for res in pmap(work, lines, init=U.setup_world, chunksize=16):
             for c in res:
                 fh.write(c + '\n')
 
